@@ -2,8 +2,9 @@
 
 Model: lean/StraxModel/Model/FS.lean (abstract crashing file system + the FileSaver protocol as a small-step
 machine: saver thread, chunk-writer workers, writes the handler does not wait for, fault actions); theorems:
-Props/C04.lean (serial and executor variants; the forked variant — savers inlined into a ParallelSourcePlugin — is
-modelled as coded and REFUTED there: open defect D35).
+Props/C04.lean (universal statements: serial and executor variants; the forked variant — savers inlined into a
+ParallelSourcePlugin — is modelled as coded since the D35 fix 8cfc614, tied here at operation level, with `decide`
+witnesses and the refutation of the unfixed cleanup in Props).
 Tie: every FS operation the real code issues while making a target of a small plugin graph is intercepted by
 checks/lib/faultfs.py (module attributes of strax.storage.files / strax.io rebound, nothing in /repo edited).
 For every operation of the fault-free attempt an exception is injected at it, and the process is killed (fork +
@@ -230,7 +231,6 @@ THOROUGH = QUICK + [
     S("forked-async", ["c4src", "c4map"], "plan3", forked="async"),
 ]
 SCEN = {s["name"]: s for s in THOROUGH}
-FORKED_COMPONENTS = [f"fault/{s['name']}" for s in THOROUGH if s["forked"]]
 
 
 def mk_context(scen, root):
@@ -412,10 +412,12 @@ def inspect(scen, root):
     return out
 
 
-def saver_ops(trace, key):
+def saver_ops(trace, key, inflight=False):
     """operations of the save protocol on this key that were actually issued (the one a `die_before` fault
-    prevented is in the trace only as a marker)"""
-    return [o for o in trace if o["key"] == key and o["role"] != "R" and o["res"] not in ("die_before", "inflight")]
+    prevented is in the trace only as a marker; one that another thread had begun when the process died is counted
+    only on request: it may or may not have taken effect)"""
+    skip = ("die_before",) if inflight else ("die_before", "inflight")
+    return [o for o in trace if o["key"] == key and o["role"] != "R" and o["res"] not in skip]
 
 
 # ----------------------------------------------------------------------------- scenario preparation (cached per process)
@@ -583,6 +585,18 @@ def model_index(model_ops, variant, role, j):
     return None         # the model's protocol has no such operation: compared as a fault-free attempt
 
 
+def join_faults(parts):
+    """`parts`: list of fault strings (or (sort key, string)) in the order they happened -> the token field.  Faults due
+    at the same operation index apply in list order (the model consumes a skip, an exception moves the index on); an
+    exception thrown into the saver (`ab@n`) discards the chunks not yet submitted, so later skips are moot."""
+    parts = [p if isinstance(p, tuple) else ((10 ** 9, n), p) for n, p in enumerate(parts)]
+    parts = [p for _, p in sorted(parts, key=lambda x: x[0])]
+    ab = [int(p[3:]) for p in parts if p.startswith("ab@")]
+    if ab:
+        parts = [p for p in parts if not (p.startswith("sk@") and int(p[3:]) >= min(ab))]
+    return "+".join(parts) or "none"
+
+
 def token(scen, fault="none", es=0, extra=(), abandoned=0, show=""):
     lost = 0        # 1 would be the threaded processor before the D26 fix (an exception of the final close got lost)
     return "|".join([scen["variant"], "1", RM[scen["rm"]], fault, str(es), "/".join(extra) or "-", str(abandoned), str(lost), show])
@@ -634,6 +648,10 @@ def predict_handler(scen, step):
     setup = not any(o["g"] <= gf and o["role"] != "R" and o["func"] in PROCESSING for o in tr)
     later_exc = [o["key"] for o in tr if o["res"] == "exc" and o["g"] > gf]
     pred = {}
+    if step.get("before") is not None or (scen["proc"] == "single_thread" and len(scen["keys"]) > 2):
+        # NOT predicted (validated only for first attempts and graphs of two savers): faulted retries, and the order
+        # in which kill_spies visits three or more spies — there the observed treatment is the model's input
+        return {k: "racy" for k in order}
     if setup:
         return {k: "abandoned" for k in order}
     if scen["forked"]:
@@ -755,17 +773,25 @@ def attempt_spec(scen, key, step, base_ops_model, show, hspec=None):
                 k = model_index(base_ops_model(), scen["variant"], fe["role"], 0)
                 if k is not None:
                     parts.append(f"sk@{k}")
-            if cls == "handled":
+            if scen["forked"] and pred.get(key) == "racy":
+                inl = inlined_facts(scen, step)
+                ca = inl["close_at"].get(key)
+                if ca is None:
+                    parts.append(f"ab@{len(ops)}")      # cleanup stopped at an earlier saver's failing close
+                    abandoned = 1
+                elif cls == "handled" or inl["gen_aborted"]:
+                    parts.append(f"ab@{ca}")
+            elif cls == "handled":
                 parts.append(f"ab@{close_start}")
             elif cls == "open" and pred.get(key) == "abandoned":
                 parts.append(f"ab@{len(ops)}")
                 abandoned = 1
-        return token(scen, "+".join(parts) or "none", es, extra, abandoned, show)
+        return token(scen, join_faults(parts), es, extra, abandoned, show)
 
     # deterministic scenarios
     for ft, o in fr:
         if ft["kind"] == "exc" and o["key"] == key and o["role"] != "R":
-            parts.append("exc@%d" % obs.index(o))
+            parts.append(((o["g"], 0), "exc@%d" % obs.index(o)))
     if fe is not None and scen["forked"] and pred.get(key) != "abandoned" and not all(v == "abandoned" for v in pred.values()):
         # inlined savers after the savers were created: pool tasks fail on their own (the saver is not told), the
         # generator may or may not be thrown into, cleanup closes the savers in creation order and stops at a failing close
@@ -774,7 +800,7 @@ def attempt_spec(scen, key, step, base_ops_model, show, hspec=None):
         for ft, o in fr:
             if ft["kind"] == "exc" and o["role"].startswith("W") and o["key"] != key and o["key"] in order \
                     and key in order[order.index(o["key"]):]:
-                parts.append("sk@%d" % sum(1 for x in obs if x["g"] < o["g"]))     # the task never came to this saver
+                parts.append(((o["g"], 0), "sk@%d" % sum(1 for x in obs if x["g"] < o["g"])))   # the task never came to this saver
         ca = inl["close_at"].get(key)
         if ca is not None:
             if cls == "handled" or inl["gen_aborted"]:
@@ -815,7 +841,9 @@ def attempt_spec(scen, key, step, base_ops_model, show, hspec=None):
             if scen["proc"] == "single_thread":
                 nb = n_before
             else:
-                nb = close_start if close_start is not None else n_before
+                # threads: the kill reaches this saver's thread some time later; if the process died before that the
+                # saver was simply still running
+                nb = close_start if close_start is not None else (len(ops) + 1 if died else len(ops))
             if len(ops) > nb or not died:
                 if hspec and key in hspec:
                     es, extra = hspec[key]
@@ -828,8 +856,11 @@ def attempt_spec(scen, key, step, base_ops_model, show, hspec=None):
         if dft is not None and dft[1]["key"] == key and dft[1]["role"] != "R":
             parts.append(("db@%d" % len(ops)) if dft[0]["kind"] == "die_before" else ("da@%d" % (len(ops) - 1)))
         else:
-            parts.append(f"db@{len(ops)}")
-    return token(scen, "+".join(parts) or "none", es, extra, abandoned, show)
+            # an operation of this saver was in flight on another thread when the process died (threaded processor):
+            # it may or may not have taken effect — both are deaths of the model, one operation apart
+            infl = any(o["key"] == key and o["role"] != "R" and o["res"] == "inflight" for o in step["trace"])
+            parts.append(f"db@{len(ops)}" + ("?" if infl else ""))
+    return token(scen, join_faults(parts), es, extra, abandoned, show)
 
 
 def handler_spec_of(scen, step):
@@ -864,13 +895,13 @@ def real_result(step, key):
     return oc.split(":")[0]
 
 
-def impl_line(scens, key, steps, shows, took):
+def impl_line(scens, key, steps, shows, took, inflight=False):
     parts = []
     for scen, step, show, tk in zip(scens, steps, shows, took):
         if not tk:
             continue
         a = step["after"][key]
-        ops = [canon_op(o) for o in saver_ops(step["trace"], key)]
+        ops = [canon_op(o) for o in saver_ops(step["trace"], key, inflight)]
         r = real_result(step, key) if "r" in show else "*"
         o = (",".join(ops) or "-") if "o" in show else "*"
         ls = a["ls"] if "l" in show else "*"
@@ -903,6 +934,15 @@ def model_base_ops(driver, p, scen, key, prior_tokens):
         ops = out.split(" ; ")[-1].split(" ops=")[1]
         _BASE_OPS[line] = [] if ops in ("-", "*") else ops.split(",")
     return _BASE_OPS[line]
+
+
+def upstream_wrong(p, scen, step, key):
+    """before this attempt, a data type this key is computed from counted as stored with rows other than the reference"""
+    b = step.get("before")
+    if b is None:
+        return False
+    ks = scen["keys"]
+    return any(b[u]["find"] == "ok" and b[u]["rows"] != p["ref"][u]["rows"] for u in ks[:ks.index(key)])
 
 
 def build_rows(case, res, driver):
@@ -942,6 +982,10 @@ def build_rows(case, res, driver):
                 tokens.append(tok)
         impl = impl_line(escens, key, steps, shows, took)
         op = ("c04.run " + p["chunks"][key] + " " + " ".join(pre_tokens + tokens)) if tokens else None
+        if any(upstream_wrong(p, scen, step, key) and tk for step, tk in zip(steps, took)):
+            # an attempt computed this key from stored-but-wrong input (only possible after a violation, which the oracle
+            # reports): the chunk list the model was given does not apply
+            op = None
         if op is not None and "?|" in op:
             # undecided in-flight operation: the model is asked for the death before it and after it
             import re as _re
@@ -950,8 +994,13 @@ def build_rows(case, res, driver):
             cands = [op.replace(m.group(0), f"db@{n0}"), op.replace(m.group(0), f"db@{n0 + 1}")]
             outs = driver.run(cands)
             n_pre = len(pre_tokens)
-            pick = next((c for c, o in zip(cands, outs) if " ; ".join(o.split(" ; ")[n_pre:]) == impl), cands[0])
-            op = pick
+            impl2 = impl_line(escens, key, steps, shows, took, inflight=True)     # … with the in-flight operation done
+            if " ; ".join(outs[0].split(" ; ")[n_pre:]) == impl:
+                op = cands[0]
+            elif " ; ".join(outs[1].split(" ; ")[n_pre:]) == impl2:
+                op, impl = cands[1], impl2
+            else:
+                op = cands[0]
         rows.append(dict(key=key, impl=impl, op=op, n_pre=len(pre_tokens)))
     return rows
 
@@ -969,19 +1018,10 @@ D35_TAG_DIED = ("[D35-shape: forked saver, fault on a worker-side chunk write/re
 PROBE_FUNC = "FileSytemBackend._saver"
 
 
-def fault_op(step, ft=None):
-    ft = ft or step["fault"]
-    if ft is None:
-        return None
-    for o in step["trace"]:
-        if (o["key"], o["role"], o["j"]) == (ft["key"], ft["role"], ft["j"]):
-            return o
-    return None
-
-
 def oracle_case(case, res):
     """the property's own wording on what the real code did.  Returns None or a message.  A message that describes
-    exactly the state of the open defect D35 (and nothing else) carries the tag the known-findings file is keyed on."""
+    exactly the state of defect D35 (fixed in /repo 8cfc614; the tag would show a regression of that fix by name) and
+    nothing else carries the D35 tag."""
     if res.get("hang"):
         return f"the request did not come back: {res['hang']}"
     p = prepare(case["scen"])
@@ -990,17 +1030,16 @@ def oracle_case(case, res):
     steps = res["steps"]
     target = scen["keys"][-1]
     plain, d35 = [], []
-    ft0 = steps[0]["fault"]
-    o0 = fault_op(steps[0])
-    # the shape of D35: inlined savers, one exception, injected into an operation of a pool task, which reached the caller
-    excs0 = [o for o in steps[0]["trace"] if o["res"] == "exc"]
-    d35_shape = bool(scen["forked"] and ft0 and ft0["kind"] == "exc" and ft0["role"].startswith("W")
-                     and (steps[0]["outcome"].startswith("raised") or steps[0]["outcome"] == "died") and o0 is not None and o0["res"] == "exc"
-                     and all(o["role"].startswith("W") for o in excs0))
+    shaped = None       # first attempt with the shape of D35: inlined savers, the first exception of the attempt was injected
+    #                     into an operation of a pool task, and the attempt ended with that exception (or a later death)
     for si, step in enumerate(steps):
         ft = step["fault"]
         tag = f"after attempt {si} ({'fault ' + '+'.join(f['kind'] for f in step['faults']) if ft else 'clean retry'})"
         corrupted = any(step["after"][k]["find"] not in ("ok", "err DataNotAvailable") for k in scen["keys"])
+        fe = first_exc(step)
+        if shaped is None and eff_scen(scen, step)["forked"] and fe is not None and fe["role"].startswith("W") \
+                and (step["outcome"].startswith("raised") or step["outcome"] == "died"):
+            shaped = si
         for key in scen["keys"]:
             a = step["after"][key]
             if a["find"] not in ("ok", "err DataNotAvailable"):
@@ -1014,8 +1053,9 @@ def oracle_case(case, res):
                 elif a["rows"] != ref[key]["rows"]:
                     msg = f"{tag}: {key} is reported stored but its rows differ from the fault-free result"
                 if msg:
-                    # D35 also explains the same wrong data still being there after the retry (it counts as stored)
-                    (d35 if d35_shape and (si == 0 or steps[si]["before"][key]["find"] == "ok") else plain).append(msg)
+                    # from a D35-shaped attempt on, wrong data that counts as stored stays (the retry does nothing) and is
+                    # what later attempts compute from
+                    (d35 if shaped is not None else plain).append(msg)
             elif ft is None and not corrupted and (key == target or saver_ops(step["trace"], key)):
                 # the request was for the last key of the graph; an intermediate type only has to be there if this
                 # attempt set out to save it.  (When some key is in the corrupted state the whole request fails
@@ -1035,7 +1075,7 @@ def oracle_case(case, res):
                 plain.append(f"{tag}: make returned normally but {target} is not stored (find={step['after'][target]['find']})")
     if plain:
         return "; ".join(plain + d35)
-    return ("; ".join(d35) + " " + (D35_TAG_DIED if steps[0]["outcome"] == "died" else D35_TAG)) if d35 else None
+    return ("; ".join(d35) + " " + (D35_TAG_DIED if steps[shaped]["outcome"] == "died" else D35_TAG)) if d35 else None
 
 
 # ----------------------------------------------------------------------------- driver of the whole check
@@ -1152,7 +1192,9 @@ def then_cases(ctx, p, cases, results):
     """second faults while the handler closes the savers: for the chosen first faults (kind exc), every operation the
     run issued after the exception gets the three fault kinds, armed together with the first fault"""
     name = p["scen"]["name"]
-    if not p["scen"]["det"]:
+    if not p["scen"]["det"] or (p["scen"]["proc"] == "threaded_mailbox" and not p["scen"]["forked"]) or len(p["scen"]["keys"]) > 2:
+        # the address of a handler operation must mean the same in the second run: not under the threaded processor,
+        # where the moment the kill reaches a saver's thread varies; graphs of three savers: handler treatment not predicted
         return []
     chosen = [i for i, c in enumerate(cases) if c["kind"] == "exc" and not c.get("second") and (c["key"], c["role"], c["j"]) in THEN_QUICK.get(name, [])]
     if ctx.thorough:
